@@ -133,7 +133,7 @@ def tlc_mc(module, cfg, name, timeout=1200, workers=None, env=None, edges_out=No
 
 
 def tlc_trace(module, cfg, trace, name, timeout=1800, env=None):
-    """Trace validation: returns (n_events, [bad indices]).  The trace spec prints
+    """Trace validation: returns (n_events, [(bad index, code)], seconds).  The trace spec prints
     <<"TRACE-RESULT", n, <<bad...>>>> when it has consumed the whole trace."""
     meta = os.path.join(BUILD, "tlc", name)
     outp = os.path.join(BUILD, name + ".trace.out")
@@ -148,11 +148,14 @@ def tlc_trace(module, cfg, trace, name, timeout=1800, env=None):
     txt = open(outp).read()
     if rc == 124:
         raise ToolError("TLC timed out validating %s" % trace)
-    m = re.search(r'<<"TRACE-RESULT", (\d+), <<(.*?)>>>>', txt, re.S)
+    m = re.search(r'<<\s*"TRACE-RESULT",\s*(\d+),', txt)
     if not m or "Model checking completed. No error has been found." not in txt:
         raise ToolError("trace validation of %s did not complete; see %s\n%s" % (trace, outp, txt[-1500:]))
     n = int(m.group(1))
-    bad = [int(x) for x in re.findall(r"\d+", m.group(2))]
+    rest = txt[m.end():]
+    stop = re.search(r"\n(Model checking|Error|Progress|Finished|Checking|\d+ states)", rest)
+    body = rest[:stop.start()] if stop else rest
+    bad = [(int(a), int(b)) for a, b in re.findall(r"<<(\d+),\s*(\d+)>>", body)]
     return n, bad, round(dt, 1)
 
 
@@ -194,9 +197,12 @@ class Report:
     def finish(self):
         for k, what in self.known_hit.items():
             print("KNOWN-FINDING: property=%s %s (%s)" % (self.prop, k, what))
-        for k, path in self.new.items():
-            print("VIOLATION property=%s replay=%s" % (self.prop, path))
-            log("violation key: %s" % k)
+        for j, (k, path) in enumerate(self.new.items()):
+            if j < 8:
+                print("VIOLATION property=%s replay=%s" % (self.prop, path))
+                log("violation key: %s" % k)
+        if len(self.new) > 8:
+            log("... and %d more distinct violations (replay files written)" % (len(self.new) - 8))
         sys.stdout.flush()
         return 1 if self.new else 0
 
